@@ -336,12 +336,21 @@ func (p *flowProto) runCacheFile(st *state, line, expect string) (string, string
 		dir, _ := ioutil.TempDir("", "verif-c11")
 		defer os.RemoveAll(dir)
 		path := filepath.Join(dir, "cache.json")
+		// the file of an earlier, larger save is still there (every restart saves over the previous file)
+		ioutil.WriteFile(path, []byte(strings.Repeat(`{"Cache":[{"Templates":{"1":{"Template":{"TemplateID":256}}}}],"ShardNo":32}`+"\n", 3000)), 0o644)
 		if err := p.dumpReal(p.cache(st), path); err != nil {
 			return "ERR", "fail:dump " + err.Error()
 		}
 		b, _ := ioutil.ReadFile(path)
 		st.v["file"] = b
-		return hx(reTimestamp.ReplaceAll(b, []byte(`"Timestamp":0`))), "ok"
+		// the file just written must load back to the cache it was written from
+		verdict := "ok"
+		want, _ := listReal(p.cache(st))
+		got, err := listReal(p.loadReal(path))
+		if err != nil || got != want {
+			verdict = "fail:restart the file written by Dump does not load back to the saved cache: saved " + clip(want, 160) + " loaded " + clip(got, 160)
+		}
+		return hx(reTimestamp.ReplaceAll(b, []byte(`"Timestamp":0`))), verdict
 	}
 	return "bad-op", ""
 }
